@@ -141,6 +141,13 @@ def run(ctx):
             inners = [list(range(i * 2, i * 2 + rng.choice([0, 1, 2]))) for i in range(k)]
             log, out, err = I.trace_rr(inners, b)
             obs.append(("rr", b, k, None, log, err)); reqs.append({"m": "rr", "b": b, "trace": log})
+    # a non-positive buffer size (shuffle=-1 reaches the buffer) is refused by the code; whatever it does, it must not drain its source
+    for b in (0, -1):
+        log, out, err = I.trace_sb(0, b, take=1, infinite=True, pull_limit=50)
+        pulled = sum(1 for l in log if l[0] == "pull" and l[1] is not None)
+        if pulled >= 50:
+            ctx.report({"kind": "readahead", "stage": "shuffle_buffer", "nonpositive_buffer": True},
+                       f"shuffle_buffer(buffer_size={b}) pulled {pulled}+ elements of an endless source before yielding anything", {"b": b, "trace": log[:20]})
     reps = lean.driver(reqs)
     corr_bad = []
     for (kind, b, n, take, log, err), rep in zip(obs, reps):
